@@ -551,14 +551,35 @@ def _replay_text(inp):
         shutil.rmtree(d, ignore_errors=True)
 
 
+def _replay_text_native(inp):
+    """the same text through the parser + DocTest.run in native mode (what the native runner would do)"""
+    import contextlib
+    import io
+    import warnings
+    from xdoctest import core
+    nat = []
+    with warnings.catch_warnings(), contextlib.redirect_stdout(io.StringIO()):
+        warnings.simplefilter('ignore')
+        for ex in core.parse_docstr_examples(inp['textfile'], inp['name'], fpath='/nonexistent/' + inp['name'], style=inp['style']):
+            ex.mode = 'native'
+            if ex.is_disabled(pytest=True):
+                nat.append('S')
+                continue
+            sm = ex.run(on_error='return', verbose=0)
+            nat.append('S' if sm['skipped'] else ('P' if sm['passed'] else 'F'))
+    return nat
+
+
 def replay(ctx, failing):
     inp = failing['input']
     if 'textfile' in inp:
         got, rc = _replay_text(inp)
+        nat = _replay_text_native(inp)
         print('text file %s (style %s):\n%s' % (inp['name'], inp['style'], inp['textfile']))
-        print('expected outcomes of its pytest items: %r' % (failing.get('expected'),))
-        print('pytest reports now                 : %r (exit status %r)' % (got, rc))
-        return got != failing.get('expected')
+        print('expected outcomes of its doctests          : %r' % (failing.get('expected'),))
+        print('pytest reports now                         : %r (exit status %r)' % (got, rc))
+        print('parser + DocTest.run in native mode give now: %r' % (nat,))
+        return got != failing.get('expected') or nat != failing.get('expected')
     if 'textfiles' in inp:
         print('exit status of pytest over a directory of text files: recorded %r, expected %r' % (failing.get('impl'), failing.get('expected')))
         return True
